@@ -213,7 +213,7 @@ lay_check(ldb_t *db, const char *dbdir, const kcfg_t *cfg, lay_stats_t *stats, c
               capve = capve ? capve * 2 : 256;
               ve = realloc(ve, capve * sizeof(*ve));
             }
-            ve[nve].level = level; ve[nve].file = nf->number; ve[nve].key = found; ve[nve].seq = tr >> 8;
+            ve[nve].level = level; ve[nve].file = nf->number; ve[nve].key = kv_rep_tab[found]; ve[nve].seq = tr >> 8;
             nve++;
           }
         }
